@@ -33,6 +33,8 @@ def decl_specs(tier):
         K = alphabet.make_decl([c], None, 'c')
         K['name'] = 'Mid'
         specs.append({'P': ir.PKT('Top', [('pre', ir.I(1)), ('mid', ir.R(K)), ('post', ir.I(1))]), 'tag': 'depth2-' + c})
+    for c in ('i1', 'i3', 'dn', 'm0', 'b35', 'sn', 'su', 'sr', 'o1', 'r1', 'rs', 'sdn'):
+        specs.append({'names': [c], 'wrapper': 'd'})
     specs.extend(alphabet.families())
     return specs
 
